@@ -252,7 +252,7 @@ const preludeDecls = `(set-option :produce-models true)
 (define-fun enc_bool ((b Bool)) Int (ite b 1 0))
 (define-fun dec_bool ((x Int)) Bool (= x 1))
 (define-fun validSlice ((s Slice)) Bool (and (<= 0 (s-arr s)) (<= 0 (s-off s)) (<= 0 (s-len s)) (<= (s-len s) (s-cap s)) (< (+ (s-off s) (s-cap s)) 72057594037927936) (=> (= (s-arr s) 0) (and (= (s-cap s) 0) (= (s-off s) 0)))))
-(define-fun validVal ((v Val)) Bool (and (=> ((_ is VSlice) v) (validSlice (vslice v))) (=> ((_ is VMap) v) (<= 0 (vmap v))) (=> ((_ is VBig) v) (<= 0 (vbig v))) (=> ((_ is VInt) v) (and (<= (- 9223372036854775808) (vint v)) (<= (vint v) 9223372036854775807))) (=> ((_ is VOther) v) (>= (vtype v) 100))))
+(define-fun validVal ((v Val)) Bool (and (=> ((_ is VSlice) v) (validSlice (vslice v))) (=> ((_ is VMap) v) (<= 0 (vmap v))) (=> ((_ is VBig) v) (< 0 (vbig v))) (=> ((_ is VInt) v) (and (<= (- 9223372036854775808) (vint v)) (<= (vint v) 9223372036854775807))) (=> ((_ is VOther) v) (>= (vtype v) 100))))
 (define-fun jsonVal ((v Val)) Bool (and (validVal v) (not ((_ is VOther) v)) (=> ((_ is VBig) v) (< 0 (vbig v)))))
 ; rune decoding of strings (abstract UTF-8 decoder, DESIGN §2.7)
 (declare-fun rwidth (Str Int) Int)
